@@ -7,10 +7,17 @@ rm -rf "$M"; mkdir -p "$M"
 trap 'rm -rf "$M"' EXIT
 rsync -a --exclude .git --exclude '*.o' --exclude '*.lo' --exclude '*.la' --exclude .libs --exclude '*.a' --exclude '*.so*' /repo/ "$M"/ || exit 2
 ( cd "$M" && patch -p1 --no-backup-if-mismatch -s < "$P" ) || { echo "patch failed: $P"; exit 2; }
-OUT="$(cd "$ROOT" && VERIF_REPO="$M" VERIF_EVIDENCE_DIR=/var/tmp/mutant-evidence.$$ VERIF_REPLAY_DIR=/var/tmp/mutant-evidence.$$/replays ./check "$ID" --tier "$TIER" 2>&1)"
-RC=$?
-rm -rf /var/tmp/mutant-evidence.$$
-echo "$OUT" | grep -E 'VIOLATION|HARNESS|OK property|failure|KNOWN' | head -5
+# SEEDS="1 2 3" runs the check once per seed on the same build (caught only if every seed catches it; the count is printed)
+NS=0; NC=0; RC=1; OUT=""
+for SEED in ${SEEDS:-${VERIF_SEED:-1}}; do
+  O="$(cd "$ROOT" && VERIF_REPO="$M" VERIF_EVIDENCE_DIR=/var/tmp/mutant-evidence.$$ VERIF_REPLAY_DIR=/var/tmp/mutant-evidence.$$/replays ./check "$ID" --tier "$TIER" --seed "$SEED" 2>&1)"; R=$?
+  NS=$((NS+1)); if [ $R -eq 1 ] && echo "$O" | grep -q '^VIOLATION'; then NC=$((NC+1)); else RC=$R; OUT="$O"; fi
+  [ -z "$OUT" ] && OUT="$O"
+  rm -rf /var/tmp/mutant-evidence.$$
+  echo "$O" | grep -E 'VIOLATION|HARNESS|OK property|failure' | head -3
+done
+[ $NS -gt 1 ] && echo "SEEDS: caught with $NC of $NS seeds"
+[ $NC -eq $NS ] && RC=1
 # drop the mutant's cache entry
 TH="$("$ROOT/build/treehash.sh" "$M")"; CLEAN="$("$ROOT/build/treehash.sh" /repo)"; if [ -n "$TH" ] && [ "$TH" != "$CLEAN" ]; then rm -rf "$ROOT/.cache/$TH"-*; fi
 if [ $RC -eq 1 ] && echo "$OUT" | grep -q '^VIOLATION'; then echo "MUTANT CAUGHT: $(basename "$P") by $ID ($TIER)"; exit 0; fi
